@@ -193,6 +193,9 @@ class Reservoir(Filter[Iterable[Any], Sequence[Any]]):
                 try:
                     for r1,r2,r3 in batched_randoms_forever(20):
                         W = W*r1**x
+                        #the generator can return exactly 0: log(0) or log base 1 would be
+                        #an infinite skip, that is, no later item replaces a reservoir item
+                        if r2 == 0 or 1-W == 1: break
                         S = floor(log(r2,1-W))
                         reservoir[int(r3*count)] = next(islice(items,S,S+1))
                 except StopIteration:
